@@ -1,0 +1,10 @@
+//go:build verif
+
+package treemap
+
+import rbt "github.com/emirpasic/gods/v2/trees/redblacktree"
+
+// VerifInner returns the wrapped red-black tree.
+func (m *Map[K, V]) VerifInner() *rbt.Tree[K, V] {
+	return m.tree
+}
